@@ -10,6 +10,7 @@ use std::panic::{catch_unwind, AssertUnwindSafe};
 mod xlate;
 mod ops;
 mod units;
+mod flows;
 mod fixtures;
 #[path = "../../harness/src/reference.rs"]
 mod reference;
@@ -76,6 +77,7 @@ fn main() {
         "canon" => ops::replay_canon(&a),
         "op" => ops::replay_op(&a),
         "unit" => units::replay_unit(&a),
+        "sigflow" | "update" => flows::replay_flow(&a),
         _ => (false, "unknown".to_string(), format!("unknown transport kind '{}'", kind)),
     };
     println!("REPLAY reproduced={} key={} detail={}", rep, key, detail.replace('\n', " "));
